@@ -102,8 +102,11 @@ def _s2(program, res):
         elif k.name in ("ConvertRecordsNode",):
             res.ok("C08-S2", f"{m.qualname}: delegated to the record map", nontrivial=False)
         elif k.name in ("ConcatRowsNode",):
-            t = unparse(m.node)
-            if "select(common_columns)" in t and "c != op.id_column" in t:
+            from .. import pat
+            lists = pat.find("_CC = [_C for _C in __COLS if _C != op.id_column]", m.node)
+            lists = [e for (_n, e) in lists if e["__COLS"] in ("op.columns_produced()", "op.column_names")]
+            sel = [e for (_n, e) in pat.find("[_I.select(_CC) for _I in _INPUTS]", m.node)]
+            if lists and any(e["_CC"] == lists[0]["_CC"] for e in sel):
                 res.ok("C08-S2", f"{m.qualname}: both inputs are projected to the common columns, then the id column is added")
             else:
                 res.fail_at("C08-S2", m, "concat-projection", f"{m.qualname} no longer projects both inputs to the declared columns")
